@@ -1,6 +1,7 @@
 (* C05 driver.  stdin: "case <id>", ops, "end".
    ops:  C <lbl> <np> <prog> <args> | Y r | V r | M r | D r | S r1 r2 | U r1 r2 | T dt | X | Z
-         prog = steps and a final statement separated by ',':  w<d> p<d>  /  e<val> r<j> x o k<d> q<d> h
+         prog = levels separated by '/', a level = steps and a final statement separated by ',':
+                w<d> p<d> t (start the next level here)  then  e<val> r<j> L x o k<d> q<d> h S K<n> N
          args = value tokens separated by ',' or '-';  value token: n i<k> f<k> s<k> z l<k> v<k> a<k> c<k>
    prints per op  m <call> | <records> | n=<running> th=<threads>[ hang][ UB]   (model) then  s ...  (specification) *)
 let kinds = "ifszlvac"
@@ -12,29 +13,39 @@ let parse_val (w : string) : dval =
     | Some k -> DData (n_of_int k, (if w.[0] = 'z' then n_of_int 0 else n_of_int (num w)))
     | None -> DNil
 let split c s = List.filter (fun w -> w <> "") (String.split_on_char c s)
-let parse_prog (p : string) : step list * fin =
-  let rec go acc = function
-    | [] -> (List.rev acc, FFall)
+let parse_level (p : string) : level =
+  let rec go pre post seen = function
+    | [] -> (List.rev pre, List.rev post, FFall)
     | w :: rest ->
+      let add st = if seen then go pre (st :: post) seen rest else go (st :: pre) post seen rest in
+      let fin f = (List.rev pre, List.rev post, f) in
       (match w.[0] with
-       | 'w' -> go (SWait (n_of_int (num w)) :: acc) rest
-       | 'p' -> go (SPause (n_of_int (num w)) :: acc) rest
-       | 'e' -> (List.rev acc, FEnd (RLit (parse_val (String.sub w 1 (String.length w - 1)))))
-       | 'r' -> (List.rev acc, FEnd (RArg (nat_of_int (num w))))
-       | 'x' -> (List.rev acc, FEndNone)
-       | 'o' -> (List.rev acc, FFall)
-       | 'k' -> (List.rev acc, FKill (n_of_int (num w)))
-       | 'q' -> (List.rev acc, FKillTimed (n_of_int (num w)))
-       | 'h' -> (List.rev acc, FNever)
-       | _ -> go acc rest) in
-  go [] (split ',' p)
+       | 't' -> go pre post true rest
+       | 'w' -> add (SWait (n_of_int (num w)))
+       | 'p' -> add (SPause (n_of_int (num w)))
+       | 'e' -> fin (FEnd (RLit (parse_val (String.sub w 1 (String.length w - 1)))))
+       | 'r' -> fin (FEnd (RArg (nat_of_int (num w))))
+       | 'L' -> fin (FEnd RLocal)
+       | 'x' -> fin FEndNone
+       | 'o' -> fin FFall
+       | 'k' -> fin (FKill (n_of_int (num w)))
+       | 'q' -> fin (FKillTimed (n_of_int (num w)))
+       | 'h' -> fin FNever
+       | 'S' -> fin FSelfDel
+       | 'K' -> fin (FSyncKill (nat_of_int (num w)))
+       | 'N' -> fin FEndOn
+       | _ -> go pre post seen rest) in
+  let toks = split ',' p in
+  let (pre, post, f) = go [] [] false toks in
+  (* without a `t` the sub-thread is started first: all steps come after it *)
+  if List.mem "t" toks then { lpre = pre; lpost = post; lfin = f } else { lpre = []; lpost = pre; lfin = f }
+let parse_prog (p : string) : level list = List.map parse_level (split '/' p)
 let nn s = n_of_int (int_of_string s)
 let parse_op (l : string) : op option =
   match words l with
   | ["C"; lbl; np; prog; args] ->
-    let (steps, f) = parse_prog prog in
     let a = if args = "-" then [] else List.map parse_val (split ',' args) in
-    Some (OCall (lbl = "1", nat_of_int (int_of_string np), steps, f, a))
+    Some (OCall (lbl = "1", nat_of_int (int_of_string np), parse_prog prog, a))
   | ["Y"; r] -> Some (OCopy (nn r))
   | ["V"; r] -> Some (OReserve (nn r))
   | ["M"; r] -> Some (OMove (nn r))
